@@ -19,6 +19,22 @@ def lock_key(name):
     return _TABLE_ENTRY.sub(r"FUNCTIONS[\1]", _P_RULE.sub(r"\1:p_*[", name))
 
 
+_WITHIN_CAP = [re.compile(r"^(?:C03:)?(.+?)(?:#loop\d+)?:index-within-cap<[^>]*>\[[^\]]*\]$"),
+               re.compile(r"^C03:(.+?):result-within-cap\[.*\]$"),
+               re.compile(r"^C03:(.+?):length-within-cap-after-.*$")]
+
+
+def finding_key(name):
+    """what a recorded finding is matched by: the function and the KIND of clause, not the way the code happens to build
+    the container (a list() call, a comprehension, a loop with append give differently named clauses of one family)"""
+    n = lock_key(name)
+    for rx in _WITHIN_CAP:
+        m = rx.match(n)
+        if m:
+            return 'C03:%s:within-cap' % m.group(1)
+    return n
+
+
 def load():
     out = []
     p = os.path.join(ROOT, 'KNOWN_FINDINGS.jsonl')
@@ -46,4 +62,4 @@ def install(engine, prop):
         if cond is None:
             continue
         for name in f['obligations']:
-            engine.finding_conds.setdefault(lock_key(name), []).append((f['id'], cond))
+            engine.finding_conds.setdefault(finding_key(name), []).append((f['id'], cond))
